@@ -16,7 +16,7 @@ for name in $names; do
   git -C "$work/repo" checkout -q -- . 
   if ! git -C "$work/repo" apply "$d/patch.diff" 2>/dev/null; then echo "$name $prop PATCH-DOES-NOT-APPLY"; continue; fi
   t0=$(date +%s)
-  (cd "$VERIF_DIR" && VERIF_REPO="$work/repo" VERIF_SEED=${VERIF_SEED:-1} ./check "$prop" --tier quick > "$work/$name.log" 2>&1); rc=$?
+  (cd "$VERIF_DIR" && VERIF_REPO="$work/repo" VERIF_EVIDENCE_DIR=/dev/shm/mut-evidence VERIF_SEED=${VERIF_SEED:-1} ./check "$prop" --tier quick > "$work/$name.log" 2>&1); rc=$?
   t1=$(date +%s)
   what=$(grep -a -m1 "rapid\] failed\|rapid\] flaky\|rapid\] panic\|^    [a-z0-9_]*_test.go:[0-9]*: [a-zA-Z]" "$work/$name.log" | cut -c1-260 | tr '\n' ' ')
   case $rc in 1) v=CAUGHT;; 0) v=MISSED;; *) v=INCONCLUSIVE;; esac
